@@ -121,9 +121,9 @@ def check_C18(tier, seed):
     from . import replay_system
     out = Outcome("C18", tier, seed)
     models = [Model("MC_System.tla", {"Emit": True, "Part": part}, invariants=["Prop_C18", "EmitInv"], workers=2,
-                    label=f"MC_System/{part}") for part in ("defs", "files")]
+                    label=f"MC_System/{part}") for part in (("defs", "files") if tier == "quick" else ("defs", "files", "deep"))]
     vectors = []
-    for m, res in core.run_models(models, seed=seed, parallel=2):
+    for m, res in core.run_models(models, seed=seed, parallel=3):
         out.add_tlc(m, res)
         vectors += res.vectors
     bad = core.replay_parallel(replay_system.run_vector, vectors)
@@ -137,6 +137,8 @@ def check_C18(tier, seed):
         kinds[k] = kinds.get(k, 0) + 1
     out.exhaustive = True
     out.assumptions += [
+        "thorough tier: additionally the full cross product of 3 process lists x lists of two or three distinct valid flow templates x 3 naming "
+        "functions x (no stock / two stocks with every process combination) x 2 parameter lists",
         "definitions vary one aspect at a time around a base definition (process lists x flow lists x naming function; process lists x "
         "one stock from the full pool of class x lifetime model x solver x time letter x process x dims; parameter lists x flows)",
         "every valid arrow-named definition is built through from_data_reader, from_csv, from_excel (named sheets and first sheet) and "
